@@ -273,3 +273,25 @@ def translate_repeated_map_char(c: str, d: str, shape: int, rl: int) -> bool:
         elif i < len(r):
             out += r[i]
     return ev(T['translate'], s=s, m=m, r=r) == [out] and ev(T1['translate'], s=s, m=m, r=r) == [out]
+
+
+# --- added after round-4 seeded changes: zero-argument string-length() on a context item that is not a string -------------------------------
+
+T.update(parse_all({'strlen_ctx': '($a, $b) ! string-length()', 'strlen_item': 'string-length()', 'strlen_mix': '($a, $s, $b) ! (string-length(), string-length(string(.)))'}))
+
+
+@ob(budget=120, bound='a, b: integers in [-999, 999], s: string of length <= 2: string-length() without argument takes the string value of the context '
+                      'item (integer or string), in a simple map and as the context item of the evaluation',
+    funcs=['elementpath/xpath1/_xpath1_functions.py:evaluate__string_length'])
+def string_length_of_context_item(a: int, b: int, s: str) -> bool:
+    """
+    pre: -999 <= a <= 999 and -999 <= b <= 999 and len(s) <= 2
+    post: _
+    """
+    la, lb = len(str(a)), len(str(b))
+    if ev(T['strlen_ctx'], a=a, b=b) != [la, lb]:
+        return False
+    r = T['strlen_item'].evaluate(XPathContext(item=a))
+    if (r[0] if isinstance(r, list) else r) != la:
+        return False
+    return ev(T['strlen_mix'], a=a, b=b, s=s) == [la, la, len(s), len(s), lb, lb]
